@@ -1,2 +1,10 @@
 import OmplModel.Props.C10
-#print axioms OmplModel.NN.linStep_clear
+#print axioms OmplModel.NN.linear_exact
+#print axioms OmplModel.NN.linear_nearestK_dists
+#print axioms OmplModel.NN.linear_size_list_abs
+#print axioms OmplModel.NN.linear_remove_result
+#print axioms OmplModel.NN.sqrt_member
+#print axioms OmplModel.NN.sqrt_size_list_abs
+#print axioms OmplModel.NN.gnat_inv_descends_partial
+#print axioms OmplModel.NN.gnat_sibling_prune_sound_partial
+#print axioms OmplModel.NN.gnat_radius_prune_sound_partial
